@@ -7,7 +7,7 @@ from pathlib import Path
 SCHEMA_PATH = Path(__file__).with_name("schema.graphql")
 SDL = SCHEMA_PATH.read_text()
 
-FRAG_ON = {"FJ": "J", "FI": "I", "FA": "A", "FA2": "A", "FU": "U", "FD": "D", "FInl": "J", "FB": "B"}
+FRAG_ON = {"FJ": "J", "FI": "I", "FA": "A", "FA2": "A", "FU": "U", "FD": "D", "FInl": "J", "FB": "B", "FAfr": "A"}
 FRAG_TEXT = {
     "FJ": "fragment FJ on J {\n  id\n  name\n}",
     "FI": "fragment FI on I {\n  rank\n}",
@@ -17,6 +17,7 @@ FRAG_TEXT = {
     "FD": "fragment FD on D {\n  d1\n}",
     "FInl": "fragment FInl on J {\n  id\n  ... on A {\n    a1\n  }\n}",
     "FB": "fragment FB on B {\n  b1\n}",
+    "FAfr": "fragment FAfr on A {\n  friend {\n    id\n  }\n}",
 }
 FRAG_DEPS = {"FA2": ["FA"]}
 POSSIBLE = {"J": ["A", "B", "C"], "I": ["A", "B"], "U": ["A", "D"], "A": ["A"], "B": ["B"], "C": ["C"], "D": ["D"]}
@@ -183,7 +184,7 @@ def features(op):
     walk(op["sels"], named, True)
     # the same response key reached through two different atoms of one selection set (field merging)
     FRAG_SELS = {"FJ": ["id", "name"], "FI": ["rank"], "FA": ["a1", "tags"], "FA2": ["a1", "tags", "color"], "FU": ["a1", "d1"],
-                 "FD": ["d1"], "FInl": ["id", "a1"], "FB": ["b1"]}
+                 "FD": ["d1"], "FInl": ["id", "a1"], "FB": ["b1"], "FAfr": ["friend"]}
 
     def keys_of(a):
         if a["k"] == "f":
@@ -202,11 +203,17 @@ def features(op):
                 f["dup_key"] = True
                 if len({c for _, c in occ}) > 1:
                     f["dup_key_cond_mix"] = True
+                    # which occurrence comes LAST in document order (the generator keeps the last definition of a key)
+                    last = max(occ, key=lambda x: x[0])
+                    f["dup_key_cond_last"] = f.get("dup_key_cond_last", False) or bool(last[1])
+                    f["dup_key_uncond_last"] = f.get("dup_key_uncond_last", False) or not last[1]
         for a in sels:
             if a.get("sels"):
                 dups(a["sels"])
     f["dup_key"] = False
     f["dup_key_cond_mix"] = False
+    f["dup_key_cond_last"] = False
+    f["dup_key_uncond_last"] = False
     dups(op["sels"])
     return f
 
